@@ -85,3 +85,148 @@ package cpumem
 //@     invariant forall n string :: n in nodesResourceInfos ==> allocated(nodesResourceInfos[n]) && okInfo(nodesResourceInfos[n])
 //@     invariant forall n string :: n in nodesDeployCapacityMap ==> nodesDeployCapacityMap[n] != nil && allocated(nodesDeployCapacityMap[n])
 //@                                && nodesDeployCapacityMap[n].Capacity >= 1 && total >= nodesDeployCapacityMap[n].Capacity
+
+//@ # ---------- remap (C32) ----------
+//@ func (Plugin) doGetNodeResourceInfo
+//@   trusted
+//@   ensures err == nil ==> result0 != nil && allocated(result0) && okInfo(result0)
+//@   ensures[C15] err == nil ==> fresh(result0)
+//@   ensures err == nil ==> result0.Capacity != nil && allocated(result0.Capacity) && (result0.Capacity.CPUMap == nil || allocated(result0.Capacity.CPUMap))
+
+//@ func (Plugin) CalculateRemap
+//@   requires p.config.Scheduler.ShareBase >= 1
+//@   # asserted on the map handed to the response encoder: exactly the workloads without CPU binding are remapped,
+//@   # each onto the shared cores: the cores with at least one full share of free pieces, or every core if there is none
+//@   assert[C32.remap] before call Decode#2: (forall id string :: (id in engineParamsMap) <==> (id in workloadResourceMap && card(workloadResourceMap[id].CPUMap) == 0))
+//@        && (forall id string :: id in engineParamsMap ==> engineParamsMap[id] != nil && engineParamsMap[id].CPUMap == shareCPUMap && engineParamsMap[id].Remap
+//@                 && engineParamsMap[id].CPU == workloadResourceMap[id].CPULimit && engineParamsMap[id].Memory == workloadResourceMap[id].MemoryLimit
+//@                 && engineParamsMap[id].NUMANode == workloadResourceMap[id].NUMANode)
+//@   assert[C32.shared-cores] before call Decode#2: (forall c string :: c in shareCPUMap ==> shareCPUMap[c] == p.config.Scheduler.ShareBase)
+//@        && ((exists c string :: c in availableNodeResource.CPUMap && availableNodeResource.CPUMap[c] >= p.config.Scheduler.ShareBase)
+//@              ? (forall c string :: (c in shareCPUMap) <==> (c in availableNodeResource.CPUMap && availableNodeResource.CPUMap[c] >= p.config.Scheduler.ShareBase))
+//@              : (forall c string :: (c in shareCPUMap) <==> (c in nodeResourceInfo.Capacity.CPUMap)))
+//@   assert[C32.free] before call Decode#2: forall c string :: availableNodeResource.CPUMap[c] == nodeResourceInfo.Capacity.CPUMap[c] - nodeResourceInfo.Usage.CPUMap[c]
+//@   loop 1:
+//@     modifies workloadResourceMap
+//@     invariant fresh(workloadResourceMap) && allocated(workloadResourceMap) && workloadResourceMap != nil && fresh(engineParamsMap) && allocated(engineParamsMap) && engineParamsMap != nil
+//@     invariant card(engineParamsMap) == 0 && (forall id string :: !(id in engineParamsMap)) && engineParamsMap != workloadResourceMap
+//@     invariant forall id string :: id in workloadResourceMap ==> workloadResourceMap[id] != nil && allocated(workloadResourceMap[id]) && fresh(workloadResourceMap[id])
+//@                   && (workloadResourceMap[id].CPUMap == nil || allocated(workloadResourceMap[id].CPUMap)) && workloadResourceMap[id].CPUMap != engineParamsMap
+//@   loop 2:
+//@     modifies shareCPUMap
+//@     invariant fresh(shareCPUMap) && allocated(shareCPUMap) && shareCPUMap != nil && (card(shareCPUMap) == 0 <==> forall c string :: !(c in shareCPUMap))
+//@     invariant shareCPUMap != availableNodeResource.CPUMap
+//@     invariant shareCPUMap != nodeResourceInfo.Capacity.CPUMap
+//@     invariant allocated(availableNodeResource.CPUMap)
+//@     invariant forall c string :: (c in shareCPUMap) <==> (seen(c) && availableNodeResource.CPUMap[c] >= p.config.Scheduler.ShareBase)
+//@     invariant forall c string :: seen(c) ==> c in availableNodeResource.CPUMap
+//@     invariant forall c string :: c in shareCPUMap ==> shareCPUMap[c] == p.config.Scheduler.ShareBase
+//@   loop 3:
+//@     modifies shareCPUMap
+//@     invariant fresh(shareCPUMap) && allocated(shareCPUMap) && shareCPUMap != nil
+//@     invariant shareCPUMap != availableNodeResource.CPUMap
+//@     invariant shareCPUMap != nodeResourceInfo.Capacity.CPUMap
+//@     invariant allocated(availableNodeResource.CPUMap)
+//@     invariant forall c string :: (c in shareCPUMap) <==> seen(c)
+//@     invariant forall c string :: seen(c) ==> c in nodeResourceInfo.Capacity.CPUMap
+//@     invariant forall c string :: c in shareCPUMap ==> shareCPUMap[c] == p.config.Scheduler.ShareBase
+//@     invariant !(exists c string :: c in availableNodeResource.CPUMap && availableNodeResource.CPUMap[c] >= p.config.Scheduler.ShareBase)
+//@   loop 4:
+//@     modifies engineParamsMap
+//@     invariant fresh(engineParamsMap) && allocated(engineParamsMap) && engineParamsMap != nil && engineParamsMap != workloadResourceMap
+//@     invariant forall id string :: (id in engineParamsMap) <==> (seen(id) && card(workloadResourceMap[id].CPUMap) == 0)
+//@     invariant forall id string :: seen(id) ==> id in workloadResourceMap
+//@     invariant forall id string :: id in workloadResourceMap ==> workloadResourceMap[id] != nil && allocated(workloadResourceMap[id])
+//@                   && (workloadResourceMap[id].CPUMap == nil || allocated(workloadResourceMap[id].CPUMap)) && workloadResourceMap[id].CPUMap != engineParamsMap
+//@     invariant forall id string :: id in engineParamsMap ==> engineParamsMap[id] != nil && fresh(engineParamsMap[id]) && allocated(engineParamsMap[id])
+//@     invariant forall id string :: id in engineParamsMap ==> engineParamsMap[id].CPUMap == shareCPUMap && engineParamsMap[id].Remap
+//@     invariant forall id string :: id in engineParamsMap ==> engineParamsMap[id].CPU == workloadResourceMap[id].CPULimit && engineParamsMap[id].Memory == workloadResourceMap[id].MemoryLimit
+//@     invariant forall id string :: id in engineParamsMap ==> engineParamsMap[id].NUMANode == workloadResourceMap[id].NUMANode
+
+//@ # ---------- repair (C15) ----------
+//@ # wlAt names the elements of the workload list; the acc* functions are the finite sums of the decoded workload
+//@ # records over a prefix of that list, defined by recursion (axioms below are definitions, not assumptions on code)
+//@ ufun wlAt(a ref, i int) ref
+//@ ufun accCPU(a ref, lo int, n int, k string) int
+//@ ufun accNUMA(a ref, lo int, n int, k string) int64
+//@ ufun accMem(a ref, lo int, n int) int64
+//@ ufun accReq(a ref, lo int, n int) float64
+//@ axiom acc-def-cpu: forall a ref, lo int, n int, k string :: accCPU(a, lo, 0, k) == 0 && (n >= 0 ==> accCPU(a, lo, n + 1, k) == accCPU(a, lo, n, k) + wlCPU(wlAt(a, lo + n), k))
+//@ axiom acc-def-numa: forall a ref, lo int, n int, k string :: accNUMA(a, lo, 0, k) == 0 && (n >= 0 ==> accNUMA(a, lo, n + 1, k) == accNUMA(a, lo, n, k) + wlNUMA(wlAt(a, lo + n), k))
+//@ axiom acc-def-mem: forall a ref, lo int, n int :: accMem(a, lo, 0) == 0 && (n >= 0 ==> accMem(a, lo, n + 1) == accMem(a, lo, n) + wlMem(wlAt(a, lo + n)))
+//@ axiom acc-def-req: forall a ref, lo int, n int :: accReq(a, lo, 0) == 0.0 && (n >= 0 ==> accReq(a, lo, n + 1) == accReq(a, lo, n) + wlCPUReq(wlAt(a, lo + n)))
+
+//@ # the workload list as the repair sees it: elements named by wlAt, every decoded amount and every partial sum within machine range
+//@ pred wlList(ws []plugintypes.WorkloadResource) = (forall i :: 0 <= i && i < len(ws) ==> ws[i] == wlAt(arr(ws), off(ws) + i))
+//@        && (forall i, k string :: 0 <= i && i < len(ws) ==> -2305843009213693952 <= wlCPU(ws[i], k) && wlCPU(ws[i], k) <= 2305843009213693952
+//@                     && -2305843009213693952 <= wlNUMA(ws[i], k) && wlNUMA(ws[i], k) <= 2305843009213693952)
+//@        && (forall i :: 0 <= i && i < len(ws) ==> -2305843009213693952 <= wlMem(ws[i]) && wlMem(ws[i]) <= 2305843009213693952)
+//@        && (forall i, k string :: 0 <= i && i <= len(ws) ==> -2305843009213693952 <= accCPU(arr(ws), off(ws), i, k) && accCPU(arr(ws), off(ws), i, k) <= 2305843009213693952
+//@                     && -2305843009213693952 <= accNUMA(arr(ws), off(ws), i, k) && accNUMA(arr(ws), off(ws), i, k) <= 2305843009213693952)
+//@        && (forall i :: 0 <= i && i <= len(ws) ==> -2305843009213693952 <= accMem(arr(ws), off(ws), i) && accMem(arr(ws), off(ws), i) <= 2305843009213693952)
+
+//@ # usage u agrees with the sums of the workload list on everything the check compares: this is exactly "no differences"
+//@ pred consistent(n *cpumemtypes.NodeResourceInfo, ws []plugintypes.WorkloadResource) =
+//@        n.Usage.CPU == accReq(arr(ws), off(ws), len(ws)) && n.Usage.Memory == accMem(arr(ws), off(ws), len(ws))
+//@        && (forall c string :: c in n.Capacity.CPUMap ==> n.Usage.CPUMap[c] == accCPU(arr(ws), off(ws), len(ws), c))
+//@        && (forall m string :: m in n.Capacity.NUMAMemory ==> n.Usage.NUMAMemory[m] == accNUMA(arr(ws), off(ws), len(ws), m))
+
+//@ func (Plugin) getNodeResourceInfo
+//@   requires wlList(workloadsResource)
+//@   # the second result is the key-wise sum of the workload records
+//@   ensures[C15.actual-sum] result3 == nil ==> result1 != nil && allocated(result1) && fresh(result1) && result1.CPUMap != nil && allocated(result1.CPUMap) && fresh(result1.CPUMap)
+//@        && (result1.NUMAMemory == nil || (allocated(result1.NUMAMemory) && fresh(result1.NUMAMemory))) && result1.CPUMap != result1.NUMAMemory
+//@        && (forall k string :: result1.CPUMap[k] == accCPU(arr(workloadsResource), off(workloadsResource), len(workloadsResource), k))
+//@        && (forall k string :: result1.NUMAMemory[k] == accNUMA(arr(workloadsResource), off(workloadsResource), len(workloadsResource), k))
+//@        && result1.MemoryRequest == accMem(arr(workloadsResource), off(workloadsResource), len(workloadsResource))
+//@        && result1.CPURequest == accReq(arr(workloadsResource), off(workloadsResource), len(workloadsResource))
+//@   # differences are reported exactly when the recorded usage disagrees with those sums
+//@   ensures[C15.diffs-iff] result3 == nil ==> ((len(result2) == 0) <==> consistent(result0, workloadsResource))
+//@   ensures[C15.info] result3 == nil ==> result0 != nil && allocated(result0) && fresh(result0) && okInfo(result0)
+//@        && (arr(result2) == 0 || (fresh(result2) && allocated(result2)))
+//@   loop 1:
+//@     modifies actuallyWorkloadsUsage, actuallyWorkloadsUsage.CPUMap, each r :: fresh(r)
+//@     invariant actuallyWorkloadsUsage != nil && allocated(actuallyWorkloadsUsage) && fresh(actuallyWorkloadsUsage)
+//@     invariant actuallyWorkloadsUsage.CPUMap != nil && allocated(actuallyWorkloadsUsage.CPUMap) && fresh(actuallyWorkloadsUsage.CPUMap)
+//@     invariant actuallyWorkloadsUsage.NUMAMemory == nil || (allocated(actuallyWorkloadsUsage.NUMAMemory) && fresh(actuallyWorkloadsUsage.NUMAMemory))
+//@     invariant actuallyWorkloadsUsage.CPUMap != actuallyWorkloadsUsage.NUMAMemory
+//@     invariant forall k string :: actuallyWorkloadsUsage.CPUMap[k] == accCPU(arr(workloadsResource), off(workloadsResource), rangeindex + 1, k)
+//@     invariant forall k string :: actuallyWorkloadsUsage.NUMAMemory[k] == accNUMA(arr(workloadsResource), off(workloadsResource), rangeindex + 1, k)
+//@     invariant actuallyWorkloadsUsage.MemoryRequest == accMem(arr(workloadsResource), off(workloadsResource), rangeindex + 1)
+//@     invariant actuallyWorkloadsUsage.CPURequest == accReq(arr(workloadsResource), off(workloadsResource), rangeindex + 1)
+//@     invariant nodeResourceInfo != nil && allocated(nodeResourceInfo) && okInfo(nodeResourceInfo)
+//@   loop 2:
+//@     modifies nothing
+//@     invariant arr(diffs) == 0 || (fresh(diffs) && allocated(diffs))
+//@     invariant (len(diffs) == 0) <==> (actuallyWorkloadsUsage.CPURequest == totalCPUUsage
+//@                  && forall c string :: seen(c) ==> actuallyWorkloadsUsage.CPUMap[c] == nodeResourceInfo.Usage.CPUMap[c])
+//@     invariant forall c string :: seen(c) ==> c in nodeResourceInfo.Capacity.CPUMap
+//@   loop 3:
+//@     modifies nothing
+//@     invariant arr(diffs) == 0 || (fresh(diffs) && allocated(diffs))
+//@     invariant (len(diffs) == 0) <==> (actuallyWorkloadsUsage.CPURequest == totalCPUUsage
+//@                  && (forall c string :: c in nodeResourceInfo.Capacity.CPUMap ==> actuallyWorkloadsUsage.CPUMap[c] == nodeResourceInfo.Usage.CPUMap[c])
+//@                  && forall m string :: seen(m) ==> actuallyWorkloadsUsage.NUMAMemory[m] == nodeResourceInfo.Usage.NUMAMemory[m])
+//@     invariant forall m string :: seen(m) ==> m in nodeResourceInfo.Capacity.NUMAMemory
+
+//@ # writing a node record (Validate + JSON + etcd): assumed to replace the record's Capacity/Usage by deep copies and nothing else
+//@ func (Plugin) doSetNodeResourceInfo
+//@   trusted
+//@   requires resourceInfo != nil
+//@   modifies resourceInfo
+
+//@ func (Plugin) FixNodeResource
+//@   requires wlList(workloadsResource)
+//@   # what is written back: usage equal to the sums of the workload records on every key, capacity untouched
+//@   assert[C15.fixed-usage] before call doSetNodeResourceInfo#1: nodeResourceInfo != nil && nodeResourceInfo.Usage != nil
+//@        && (forall k string :: nodeResourceInfo.Usage.CPUMap[k] == accCPU(arr(workloadsResource), off(workloadsResource), len(workloadsResource), k))
+//@        && (forall k string :: nodeResourceInfo.Usage.NUMAMemory[k] == accNUMA(arr(workloadsResource), off(workloadsResource), len(workloadsResource), k))
+//@        && nodeResourceInfo.Usage.Memory == accMem(arr(workloadsResource), off(workloadsResource), len(workloadsResource))
+//@        && nodeResourceInfo.Usage.CPU == accReq(arr(workloadsResource), off(workloadsResource), len(workloadsResource))
+//@   # ... which is a record on which the check (getNodeResourceInfo's diffs-iff) reports no differences
+//@   assert[C15.fixed-consistent] before call doSetNodeResourceInfo#1: consistent(nodeResourceInfo, workloadsResource)
+//@   # the record written is the one that was read, under the same node name, with its capacity as read
+//@   assert[C15.fixed-target] before call doSetNodeResourceInfo#1: arg3 == nodeResourceInfo && arg2 == nodename && nodeResourceInfo == res(Plugin.getNodeResourceInfo, 0)
+//@        && nodeResourceInfo.Capacity == atcall(Plugin.getNodeResourceInfo, res(Plugin.getNodeResourceInfo, 0).Capacity)
+//@   # the write happens exactly when differences were found
+//@   ensures[C15.fix-iff] res(Plugin.getNodeResourceInfo, 3) == nil ==> (called(Plugin.doSetNodeResourceInfo) == ((len(res(Plugin.getNodeResourceInfo, 2)) != 0) ? 1 : 0))
